@@ -166,6 +166,17 @@ def enc_task(prop, m, widths, known):
                     res.oblig(False)
                 else:
                     res.oblig(True if r == 'unsat' else None, 'unknown: %s word' % m)
+                    if r == 'unsat' and widths.get('second_solver') and isinstance(val, SymInt):
+                        from symx import second
+                        neg = And(inside, Not(eq_word(val, word)))
+                        r2 = second.recheck(p.pc_assertions() + [neg.b])
+                        ss = res.setdefault('second_solver', dict(queries=0, agree=0, disagree=[]))
+                        ss['queries'] += 1
+                        if r2 == 'unsat':
+                            ss['agree'] += 1
+                        else:
+                            ss['disagree'].append('%s: z3 unsat, cvc5 %s' % (m, r2))
+                            res.inconc('second solver disagrees on %s word obligation: cvc5 says %s' % (m, r2))
                 accepting.append((z3.And(*p.pc_assertions()) if p.pc_assertions() else z3.BoolVal(True),
                                   val, legal, dc))
         else:
